@@ -129,6 +129,10 @@ def oracle(ctx, deep):
             ctx.violations.append(dict(base, finding_key="C12-panic", what="Tokenize panicked"))
             continue
         g = glyph_count(pw)
+        if "RETURNED-PASSWORD-CHANGED-BY-A-LATER-CALL" in a:
+            ctx.violations.append(dict(base, finding_key="C12-held", what="the tokens Tokenize returned changed when Tokenize was called again (the result is not the caller's own; "
+                                                                        "it is no longer made of slices of its string)"))
+            continue
         if a.startswith("ok"):
             toks = parse_tokens(a)
             cat = b"".join(v for v, _ in toks)
